@@ -15,7 +15,7 @@ result = {
   'frames':  [ [module_name, code_name, file_name, gen_flag, first_line] ... ]   # index = frame id
   'events':  [ [stream_index, kind, frame_id, parent_frame_id|-1, line, exc_info] ... ]
                kind: 0 call, 1 line, 2 return, 3 exception;  exc_info: 0 | [type_name, is_StopIteration,
-               is_GeneratorExit, traceback_is_None]
+               is_GeneratorExit, traceback_is_None, innermost traceback frame id|-1, its line]
   'stdout':  [ [stream_index|-1, text] ... ]                      # every sys.stdout.write, in order
   'ret': repr(return value), 'exc_type': str|None, 'exc_str': str, 'tb': [[file, line, name, module] ...],
   'fmt_exc': str, 'script_module': str, 'script_file': str, 'truncated': bool
@@ -105,7 +105,13 @@ class Recorder:
         p = self.frame_id(back) if back is not None else -1
         x = 0
         if k == 3:
-            x = [getattr(arg[0], '__name__', str(arg[0])), arg[0] is StopIteration, arg[0] is GeneratorExit, arg[2] is None]
+            tb = arg[2]
+            tf, tl = -1, 0
+            while tb is not None:       # innermost frame of the traceback (what Pdb.get_stack may select)
+                tf, tl = self.frame_id(tb.tb_frame), tb.tb_lineno
+                tb = tb.tb_next
+            x = [getattr(arg[0], '__name__', str(arg[0])), arg[0] is StopIteration, arg[0] is GeneratorExit, arg[2] is None,
+                 tf, tl]
         self.events.append([s, k, f, p, frame.f_lineno, x])
         return self.trace
 
